@@ -56,6 +56,8 @@ func VC06Grpc() {
 		vrt.Tag("method=Fatalln")
 		l.Fatalln("boom")
 	}
+	vrt.Observe("exited", stub.Exited)
+	vrt.Observe("writes", len(writes))
 	vrt.Assert("fatal-action-ran", stub.Exited && stub.Code == 1)
 	if zapcore.FatalLevel >= thr {
 		vrt.Assert("enabled-entry-written", len(writes) == 1 && writes[0].Message == "boom" && writes[0].Level == zapcore.FatalLevel)
@@ -73,6 +75,7 @@ func VC05Grpc() {
 	l := NewLogger(zap.New(vGCore{thr: thr, writes: &writes}))
 	lv := vrt.Choice("v", 4)
 	mapped := []zapcore.Level{zapcore.InfoLevel, zapcore.WarnLevel, zapcore.ErrorLevel, zapcore.FatalLevel}[lv]
+	vrt.Observe("V", l.V(lv))
 	vrt.Assert("V-consistent-with-enabled", l.V(lv) == (mapped >= thr))
 	if lv == 3 {
 		return
